@@ -72,8 +72,8 @@ def head_stages(maxlen, sample=None):
 
 def p_c08(q):
     if q:
-        return head_stages(4) + [gogen('long', 100, fam='head', trace='Trace_Head'), gen_bfs('X', 2, sample=0.12, link=True), gen_bfs('C', 1, link=True)]
-    return head_stages(5) + [gogen('long', 3000, fam='head', trace='Trace_Head'), mc_router('T'), gen_bfs('X', 2, link=True), gen_bfs('C', 2, link=True),
+        return head_stages(4) + [gogen('long', 100, fam='head', trace='Trace_Head'), gen_bfs('X', 2, sample=0.12, link=True), gen_bfs('C', 1, link=True), gen_bfs('Y', 3, link=True)]
+    return head_stages(5) + [gogen('long', 3000, fam='head', trace='Trace_Head'), mc_router('T'), gen_bfs('X', 2, link=True), gen_bfs('C', 2, link=True), gen_bfs('Y', 3, link=True),
                              gen_sim('X', 10, 60, link=True), gogen('mixed', 800)]
 
 
@@ -219,8 +219,8 @@ def p_c02(q):
 def p_c03(q):
     if q:
         return [mc_router('T'), gen_bfs('B', 2, sample=0.2), gen_bfs('C', 2, sample=0.4), gen_bfs('X', 2, sample=0.05), gen_bfs('R', 5), gen_bfs('A', 2, sample=0.15),
-                gen_sim('B', 8, 10), gogen('mixed', 40)]
-    return [mc_router('T'), mc_router('M', 'routerM'), gen_bfs('A', 2), gen_bfs('B', 2), gen_bfs('C', 2), gen_bfs('X', 2, sample=0.3), gen_bfs('R', 6),
+                gen_bfs('Y', 3, link=True), gen_bfs('FC', 3, module='MC_RouterF'), gen_sim('B', 8, 10), gogen('mixed', 40)]
+    return [mc_router('T'), mc_router('M', 'routerM'), gen_bfs('A', 2), gen_bfs('B', 2), gen_bfs('C', 2), gen_bfs('X', 2, sample=0.3), gen_bfs('R', 6), gen_bfs('Y', 3, link=True), gen_bfs('FC', 3, module='MC_RouterF'),
             gen_sim('A', 14, 60), gen_sim('B', 14, 60, seedoff=1), gen_sim('C', 14, 40, seedoff=2), gogen('mixed', 1500)]
 
 
@@ -261,8 +261,10 @@ def subF(st):
 def p_c19(q):
     F = dict(module='MC_RouterF', extra='MirrorExtra', urls='UrlSetF', rt=True)
     if q:
-        return [mc_router('T'), subF(gen_bfs('F', 2, sample=0.25, **F)), subF(gen_sim('F', 8, 8, module='MC_RouterF', extra='MirrorExtra'))]
-    return [mc_router('T'), subF(gen_bfs('F', 2, **F)), subF(gen_bfs('F', 3, name='bfsF3', sample=0.02, **F)), subF(gen_sim('F', 14, 60, module='MC_RouterF', extra='MirrorExtra'))]
+        return [mc_router('T'), subF(gen_bfs('F', 2, sample=0.25, **F)), gen_bfs('FC', 3, module='MC_RouterF', extra='MirrorExtra'),
+                subF(gen_sim('F', 8, 8, module='MC_RouterF', extra='MirrorExtra'))]
+    return [mc_router('T'), subF(gen_bfs('F', 2, **F)), gen_bfs('FC', 3, module='MC_RouterF', extra='MirrorExtra'), subF(gen_bfs('F', 3, name='bfsF3', sample=0.02, **F)),
+            subF(gen_sim('F', 14, 60, module='MC_RouterF', extra='MirrorExtra'))]
 
 
 def p_c09(q):
@@ -274,8 +276,8 @@ def p_c09(q):
 
 def p_c18(q):
     if q:
-        return [mc_router('T'), gen_bfs('C', 2, th='StdTH', sample=0.6), gen_bfs('X', 2, sample=0.1), gogen('mixed', 40)]
-    return [mc_router('T'), mc_router('M', 'routerM'), gen_bfs('C', 2, th='StdTH'), gen_bfs('X', 2, sample=0.5), gen_bfs('F', 2, module='MC_RouterF', sample=0.3),
+        return [mc_router('T'), gen_bfs('C', 2, th='StdTH', sample=0.6), gen_bfs('X', 2, sample=0.1), gen_bfs('Y', 3), gogen('mixed', 40)]
+    return [mc_router('T'), mc_router('M', 'routerM'), gen_bfs('C', 2, th='StdTH'), gen_bfs('X', 2, sample=0.5), gen_bfs('Y', 3), gen_bfs('F', 2, module='MC_RouterF', sample=0.3),
             gen_sim('C', 12, 60), gogen('mixed', 1000)]
 
 
